@@ -348,7 +348,63 @@ def slow_progress_sink(ctx):
                      % (alive, len(late)), {"failing_call": failing_call})
 
 
+def no_thread_available(ctx):
+    """The very first worker thread cannot be started (RuntimeError: can't start new thread - a process / container thread limit): run
+    raises at once - it does not sit waiting for workers that do not exist - no call has executed and no thread is left.  (A failure at a
+    LATER worker start hits the same start-up window as finding F6 and is documented with it, not probed here.)"""
+    import datetime as dt
+    uberjob = core.use_repo()
+
+    class Mem(uberjob.ValueStore):
+        def read(self):
+            return 1
+
+        def write(self, v):
+            pass
+
+        def get_modified_time(self):
+            return dt.datetime(2020, 1, 1)
+    for with_registry in (False, True):
+        for workers in (1, 3):
+            for scheduler in (None, "random"):
+                executed = []
+                plan, reg = uberjob.Plan(), uberjob.Registry()
+                a = plan.call(lambda: executed.append("a") or 1)
+                b = plan.call(lambda v: executed.append("b") or v + 1, a)
+                if with_registry:
+                    reg.add(b, Mem())
+                before = set(threading.enumerate())
+
+                real_start = threading.Thread.start
+
+                def attempt():
+                    def start(self):
+                        raise RuntimeError("can't start new thread")
+                    threading.Thread.start = start
+                    try:
+                        return uberjob.run(plan, output=b, registry=reg if with_registry else None, max_workers=workers, scheduler=scheduler, progress=None)
+                    finally:
+                        threading.Thread.start = real_start
+                ctx.case(("c07-no-thread-available", with_registry, workers, scheduler))
+                try:
+                    res = core.call_watched(attempt, timeout=8)
+                    oc = "returned %r" % (res,)
+                except core.Hang:
+                    threading.Thread.start = real_start        # the stuck helper thread never reaches its finally
+                    oc = "hang"
+                except BaseException as e:      # noqa
+                    oc = "raised %s" % type(e).__name__
+                left = [t for t in threading.enumerate() if t not in before and t.name != "watched-call"]
+                if not oc.startswith("raised") or executed or left:
+                    ctx.fail("no-thread-available", "no worker thread can be started (max_workers=%d, %s registry): run %s; calls executed: %r; threads left: %r"
+                             % (workers, "with" if with_registry else "without", "did not return (it waits for workers that were never started)" if oc == "hang" else oc, executed, left),
+                             {"max_workers": workers, "registry": with_registry, "scheduler": scheduler})
+                    if oc == "hang":
+                        return           # one stuck run is enough
+
+
 def run(ctx):
+    no_thread_available(ctx)
     transform_cycles(ctx)
     slow_progress_sink(ctx)
     nested_and_scoped(ctx)
